@@ -2422,6 +2422,9 @@ def catalogue(t):
       doc='column permutation above the diagonal, in row blocks of L1-cache size')
     F('m4ri/mzd.c', 'mzd_combine', 'mzdCombine', nosse=True, alias={'A': 'C'},
       doc='dispatch: in-place variant when C == A on the same row and block')
+    F('m4ri/mzp.c', '_mzd_compress_l', 'mzdCompressL',
+      fuels=['(v_r2).toNat', '(v_A_nrows).toNat', '(v_r2).toNat', '(v_r2).toNat', '(v_n1 + v_r2).toNat'],
+      doc='compression of L after the recursive PLE step (column swaps in the pivot rows, word-wise shifts below)')
     F('m4ri/mzd.c', 'mzd_set_ui', 'mzdSetUi', fuels=['(v_A_nrows).toNat', '(v_A_width).toNat', '(v_A_nrows).toNat'])
     F('m4ri/mzd.c', '_mzd_mul_va', 'mzdMulVa', retparam='C', nosse=True, fuels=['(v_v_nrows).toNat', '(v_v_ncols).toNat'],
       doc='vector-matrix style product C (+)= v * A: one mzd_combine per set bit of v')
